@@ -31,7 +31,7 @@ TRUE_WORDS = ['1', 't', 'true', 'on', 'y', 'yes']
 FALSE_WORDS = ['0', 'f', 'false', 'off', 'n', 'no']
 PADS = [('', ''), (' ', ''), ('', ' '), ('\t', '\n'), ('  ', '  ')]
 NEAR = ['tru', 'yess', '2', '', ' ', 'o n', 'nope', 'tr ue', '01', '-1', 'None', 'truefalse',
-        'T R U E']
+        'T R U E', 'o\ufb00', 'fal\u017fe', 'ye\u017f', '\uff11', '\uff54rue', 'ON\u0307', 'n\u00f2']
 NONSTR = [True, False, 0, 1, 2, None, 1.0, 0.0, b'true', [], -1]
 
 
